@@ -270,12 +270,16 @@ class CKernel:
             raise ValueError(f"arguments already bound: {overlap}")
         args.update(user_args)
 
-        value_params = {k: int(v) for k, v in args.items()
-                        if np.isscalar(v) or (isinstance(v, np.ndarray)
-                                              and v.shape == ()
-                                              and k in knl.arg_dict
-                                              and isinstance(knl.arg_dict[k],
-                                                             lp.ValueArg))}
+        # (integer-valued ones only: these are what shapes may refer to; a
+        # float passed by value - ForceValueArgTag - may be nan or inf)
+        value_params = {}
+        for k, v in args.items():
+            if np.isscalar(v) or (isinstance(v, np.ndarray) and v.shape == ()
+                                  and k in knl.arg_dict
+                                  and isinstance(knl.arg_dict[k],
+                                                 lp.ValueArg)):
+                if np.asarray(v).dtype.kind in "iub":
+                    value_params[k] = int(v)
 
         blocks: list[tuple[str, np.ndarray, np.ndarray | None, int]] = []
         cargs = []
